@@ -253,7 +253,7 @@ def report_property(prop, a, reg, results, extra, seed, t0):
     rc = 0
     os.makedirs(os.path.join(VERIF, 'replay'), exist_ok=True)
     for o, kf in known:
-        print('KNOWN-FINDING: property=%s %s' % (prop, kf['line'][len('finding:'):].strip()))
+        print('KNOWN-FINDING: %s' % kf['line'][len('finding:'):].strip())
     nviol = 0
     for (u, o, msg) in violations:
         nviol += 1
